@@ -1,3 +1,5 @@
+//go:build go1.23
+
 package altbn128
 
 // C04, concurrent callers: hashing to G1 and (de)compression are called from
